@@ -97,7 +97,12 @@ impl VoronoiCell {
             maybe_init_face(maybe_face, tet.plane_idx);
             // Update this face's area and centroid if necessary
             if let Some(face) = maybe_face {
-                face.collect(tet.vertices[0], tet.vertices[1], tet.vertices[2], loc)
+                face.collect(
+                    tet.vertices[0],
+                    tet.vertices[1],
+                    tet.vertices[2],
+                    convex_cell.face_apex(tet.plane_idx),
+                )
             }
         }
         // Filter out uninitialized faces and finalize the rest
